@@ -33,7 +33,7 @@ def gen_init(rng, want_tensor=None, max_depth=3, ctors=None):
     ext = [rng.randint(1, 5) for _ in range(depth)]
     default = rng.choice([0, 0, 0, 7])
     dirty = rng.choice([0.0, 0.4, 0.7])
-    if not tensor and depth == 1 and want_tensor is None and rng.random() < 0.2:
+    if not tensor and depth == 1 and want_tensor is None and rng.random() < 0.4:
         default, dirty = None, 0.0      # the documented "no empty value" setting: insertions of absent coordinates are rejected
     spec = gen.rand_tree_spec(rng, ext, rng.choice([0.3, 0.6, 0.9]), dirty if tensor or depth == 1 else 0.0, default)
     init = {"depth": depth, "ext": ext, "default": default, "spec": spec, "own": "tensor" if tensor else "free",
